@@ -24,6 +24,10 @@ fn boundary(size: usize) -> Vec<u128> {
     for i in 0..bits {
         v.push((1u128 << i) & mask);
         v.push(((1u128 << i) - 1) & mask);
+        // the same powers of two seen as negative numbers (-2^i, -2^i - 1, -2^i + 1): the minima of the narrower types
+        v.push(mask.wrapping_sub(1u128 << i).wrapping_add(1) & mask);
+        v.push(mask.wrapping_sub(1u128 << i) & mask);
+        v.push(mask.wrapping_sub(1u128 << i).wrapping_add(2) & mask);
     }
     // byte-distinct and byte-palindromic patterns
     let mut x = 0u128;
